@@ -185,7 +185,16 @@ func C17(ctx *Ctx) {
 			// the packing call is not reached exactly once on one path (a loop over the
 			// channels with the limit test inside splits the interpretation into paths):
 			// compare the merged result with the prescribed colour instead
-			if rv, ok := res.(*absint.Int); ok {
+			// (interpreted once more without replacing ToRGB by channel symbols: an
+			// implementation may take the channels out of the colour itself; the reference
+			// does the same, ToRGB's own correctness is the pack rule)
+			ip2 := absint.New()
+			ip2.UnrollLoops = true
+			cArg := absint.NewSym(16, ip2.In.Atom("c", 16, 0xFFFF), false)
+			m2 := absint.NewSym(8, ip2.In.Atom("m", 8, 0xFF), false)
+			d2 := ip2.Ops.Add(absint.NewConst(8, 1, false), absint.NewSym(8, ip2.In.Atom("d-1", 8, 0xFE), false))
+			res2, out2 := ip2.Call(fn, []absint.Val{cArg, m2, d2}, nil, &absint.State{Heap: absint.NewHeap(nil)})
+			if rv, ok := res2.(*absint.Int); ok && out2 != nil && len(ip2.Imprec) == 0 {
 				ro := absint.Ops{In: absint.NewInterner()}
 				k16 := func(v uint64) *absint.Int { return absint.NewConst(16, v, false) }
 				sym := func(name string, w int, hi uint64) *absint.Int {
@@ -194,15 +203,17 @@ func C17(ctx *Ctx) {
 				m16 := ro.Convert(sym("m", 8, 0xFF), 16, false, false)
 				d16 := ro.Convert(ro.Add(absint.NewConst(8, 1, false), sym("d-1", 8, 0xFE)), 16, false, false)
 				want := k16(0)
-				for i, n := range []string{"R", "G", "B"} {
-					q := ro.Quo(ro.Mul(ro.Convert(sym(n, 8, 31), 16, false, false), m16), d16, false)
+				c16 := sym("c", 16, 0xFFFF)
+				for i := range []string{"R", "G", "B"} {
+					ch := ro.And(ro.Shr(c16, k16(uint64(5*i)), false), k16(31))
+					q := ro.Quo(ro.Mul(ch, m16), d16, false)
 					b := &absint.Bool{K: absint.TriTop, Cmp: &absint.CmpInfo{Op: ">", X: q, Y: k16(31)}}
 					key, _ := absint.GateOf(b)
 					ro.In.NoteCond(key, b)
 					lim := ro.Gamma(key, k16(31), q)
 					want = ro.Or(want, ro.Shl(lim, k16(uint64(5*i))))
 				}
-				if same, why := sameTerm(rv, ip.In.Conds, want, ro.In.Conds); same {
+				if same, why := sameTerm(rv, ip2.In.Conds, want, ro.In.Conds); same {
 					for _, n := range []string{"R", "G", "B"} {
 						R.Pass("shape", "MulDiv:channel-"+n, pos, "min(31, floor("+n+"*m/d)) of its own channel (result compared with the prescribed colour path by path)")
 					}
